@@ -306,7 +306,8 @@ def join_cases(tier, rng):
             axis = rng.randrange(-nd - 1, nd + 1)
             ms = [_member(rng, base, fmts[i], 0, idx_dtype=dt, density=rng.choice([0.05, 0.2])) for i in range(n)]
         cases.append({"fn": fn, "axis": axis, "caxes": None, "members": ms, "tag": "idx_dtype:" + dt})
-    # directed: all-GCXS members with narrow indices, joined extent beyond the index dtype
+    # directed regressions (fixed defect, /repo 36b3bc9): all-GCXS members with narrow indices, joined
+    # extent beyond the index dtype
     for dt, ext in (("int8", 100), ("uint8", 200), ("int16", 100)):
         for ax in (0, 1, -1):
             base = [2, 2]
@@ -562,7 +563,8 @@ def campaign(build, tier, seed, report, budget=1):
                 and bad_codes.get(id(c)) is None:
             tag("join/result-unreadable/" + str(r["res"].get("idx_dtype")))
             viol.append({"property": "C09", "op": "concatenate" if c["fn"] == "concat" else c["fn"], "kind": "value",
-                         "clause": "joined_result_unreadable_narrow_index_dtype", "case": c, "impl": r["res"],
+                         "clause": None, "what": "joined result cannot be read back (index dtype too narrow); "
+                         "fixed in /repo 36b3bc9, a recurrence is a new violation", "case": c, "impl": r["res"],
                          "todense": r["np_ok"], "replay_py": replay_join(c)})
 
     # ---- kernel: indptr splice
